@@ -431,7 +431,10 @@ pub fn run(tier: Tier) -> Report {
     rep.absorb(total);
     // sharp wedges eps*(x-px) >= |y-py| with rows scaled by up to 1e8 grafted below a non-root terminal: the LP
     // vertex of the wedge's path polytope misses the absolute 1e-8 tolerance of `contains`, the wedge is fat
-    let wc = wedge_cases();
+    let mut wc = wedge_cases();
+    // regions millions / billions of units from the origin
+    wc.extend(super::c11::far_programs(1e6));
+    wc.extend(super::c11::far_programs(1e9));
     rep.set("wedge_histories", wc.len() as u64);
     let tw = par_cases(&wc, |_, c| run_case(c));
     rep.absorb(tw);
